@@ -627,6 +627,28 @@ Builder::~Builder() {
   status_->SetExplanations(nullptr);
 }
 
+void Builder::CleanupInterruptedEdge(Edge* edge) {
+  string depfile = edge->GetUnescapedDepfile();
+  for (vector<Node*>::iterator o = edge->outputs_.begin();
+       o != edge->outputs_.end(); ++o) {
+    // Only delete this output if it was actually modified.  This is
+    // important for things like the generator where we don't want to
+    // delete the manifest file if we can avoid it.  But if the rule
+    // uses a depfile, always delete.  (Consider the case where we
+    // need to rebuild an output because of a modified header file
+    // mentioned in a depfile, and the command touches its depfile
+    // but is interrupted before it touches its output file.)
+    string err;
+    TimeStamp new_mtime = disk_interface_->Stat((*o)->path(), &err);
+    if (new_mtime == -1)  // Log and ignore Stat() errors.
+      status_->Error("%s", err.c_str());
+    if (!depfile.empty() || (*o)->mtime() != new_mtime)
+      disk_interface_->RemoveFile((*o)->path());
+  }
+  if (!depfile.empty())
+    disk_interface_->RemoveFile(depfile);
+}
+
 void Builder::Cleanup() {
   if (command_runner_.get()) {
     vector<Edge*> active_edges = command_runner_->GetActiveEdges();
@@ -634,25 +656,7 @@ void Builder::Cleanup() {
 
     for (vector<Edge*>::iterator e = active_edges.begin();
          e != active_edges.end(); ++e) {
-      string depfile = (*e)->GetUnescapedDepfile();
-      for (vector<Node*>::iterator o = (*e)->outputs_.begin();
-           o != (*e)->outputs_.end(); ++o) {
-        // Only delete this output if it was actually modified.  This is
-        // important for things like the generator where we don't want to
-        // delete the manifest file if we can avoid it.  But if the rule
-        // uses a depfile, always delete.  (Consider the case where we
-        // need to rebuild an output because of a modified header file
-        // mentioned in a depfile, and the command touches its depfile
-        // but is interrupted before it touches its output file.)
-        string err;
-        TimeStamp new_mtime = disk_interface_->Stat((*o)->path(), &err);
-        if (new_mtime == -1)  // Log and ignore Stat() errors.
-          status_->Error("%s", err.c_str());
-        if (!depfile.empty() || (*o)->mtime() != new_mtime)
-          disk_interface_->RemoveFile((*o)->path());
-      }
-      if (!depfile.empty())
-        disk_interface_->RemoveFile(depfile);
+      CleanupInterruptedEdge(*e);
     }
   }
 
@@ -784,6 +788,16 @@ ExitStatus Builder::Build(string* err) {
       }
 
       if (result.interrupted() || result.exit_status() == ExitInterrupted) {
+        if (result.command_completed()) {
+          // The command itself was killed by the interrupt signal.  It has
+          // already left the runner's set of active edges, so Cleanup() below
+          // does not see it: remove its partial outputs and give back its
+          // jobserver slot here.
+          Edge* interrupted_edge = result.GetCommandCompleted().edge;
+          CleanupInterruptedEdge(interrupted_edge);
+          if (jobserver_.get())
+            jobserver_->Release(std::move(interrupted_edge->job_slot_));
+        }
         Cleanup();
         status_->BuildFinished();
         *err = "interrupted by user";
